@@ -185,6 +185,7 @@ def c01(ctx, rep):
 def c13(ctx, rep):
     detectors.rule_group_verdicts(ctx, rep)
     detectors.rule_offset_inversion(ctx, rep)
+    detectors.rule_group_config(ctx, rep)
     detectors.rule_validated_in_block(ctx, rep)
 
 
